@@ -115,8 +115,18 @@ class Gen:
     def vars_of(self, env, ty):
         return [n for n, t in env.items() if t == ty]
 
-    def g_nodes(self, env, d, down=False):
+    def g_nodes(self, env, d, down=False, rich=False):
         r = self.r
+        if rich and r.random() < 0.55:
+            # selections that usually hold several nodes (composition needs node lists to iterate over)
+            c = [P([("child", N(None), [])]), P([("child", "node", [])]), P([("descendant", N(None), [])]),
+                 P([("child", N(None), []), ("child", N(None), [])]), P([("descendant", "node", [])]),
+                 P([("child", N(None), []), ("attribute", N(None), [])])]
+            if not down:
+                c += [P([("root", "root", []), ("descendant-or-self", "node", []), ("child", N(None), [])]),
+                      P([("root", "root", []), ("child", N(None), []), ("child", "node", [])]),
+                      P([("following-sibling", N(None), [])]), P([("ancestor-or-self", N(None), [])])]
+            return r.choice(c)
         if down:
             return P(self.down_steps(env, d))
         k = r.random()
@@ -385,7 +395,7 @@ class Gen:
             return ("choose", whens, self.body(cx, dict(env), d - 1) if r.random() < 0.7 else None)
         if k < 0.88:
             down = r.random() < 0.6
-            sel = self.g_typed("nodes", env, 2) if not down else xpgen.fix_bare_root(self.g_nodes(env, 2, down=True))
+            sel = xpgen.fix_bare_root(self.g_nodes(env, 2, down=down, rich=True))
             cx2 = dict(cx)
             cx2["down"] = cx["down"] and down
             env3 = dict(env)
@@ -413,12 +423,12 @@ class Gen:
         rank = cx["rank"]
         stay = cx["down"] and (r.random() < 0.6 or rank == len(MODES) - 1)
         if stay:
-            sel = None if r.random() < 0.3 else xpgen.fix_bare_root(self.g_nodes(env, 2, down=True))
+            sel = None if r.random() < 0.3 else xpgen.fix_bare_root(self.g_nodes(env, 2, down=True, rich=True))
             mode = MODES[rank] if r.random() < 0.8 or rank == len(MODES) - 1 else MODES[r.randrange(rank + 1, len(MODES))]
         else:
             if rank == len(MODES) - 1:
                 return ("value-of", self.g_any(env, 2))
-            sel = self.g_typed("nodes", env, 2)
+            sel = xpgen.fix_bare_root(self.g_nodes(env, 2, rich=True))
             mode = MODES[r.randrange(rank + 1, len(MODES))]
         return ("apply", sel, mode, self.sorts(env), self.with_params(cx, env, d, r.sample(["pa", "pb"], r.choice([0, 0, 1, 2]))))
 
